@@ -1394,25 +1394,81 @@ impl Lab {
         }
         if prop == Prop::C02 {
             if let Some((ds, thr)) = &doc {
-                // Upper bound on the delegates that can count as valid: a delegate (not blocked, not the
-                // local node on pull) with validly signed refs stored before the fetch or offered by it.
+                // The delegates with valid signed refs (reading of DESIGN §6 C02, `delegateValid` in
+                // Lemmas/Fetch.lean): a considered delegate (not blocked, not the local node on pull) counts iff
+                //  * it is not part of this fetch (refs_at given and it is not announced) and has a stored
+                //    rad/sigrefs; or
+                //  * signed refs are found for it (offered tip, else the stored one), they load and verify,
+                //    and they pass every check of this fetch: offered at all, not diverged from the stored
+                //    tip, the blob does not list rad/sigrefs, an advertised rad/id is signed; an offered tip
+                //    that is merely BEHIND the stored one leaves the stored refs valid.
+                // A delegate whose offered data fails a check in this fetch does not count, even if valid
+                // refs are stored for it.
                 let local_is_delegate = ds.contains(&sc.local);
                 let need = if local_is_delegate { thr - 1 } else { *thr };
                 let mut could = 0;
+                let mut why: Vec<String> = vec![];
                 for d in ds {
                     if sc.blocked.contains(d) || (!sc.clone && *d == sc.local) {
                         continue;
                     }
-                    let mut tips: Vec<git2::Oid> = vec![];
-                    tips.extend(lrefs.get(&(*d, SIGREFS.to_string())));
-                    tips.extend(arefs.get(&(*d, SIGREFS.to_string())));
-                    tips.extend(w.a_dups.iter().filter(|(k, _)| k == d).map(|(_, o)| *o));
-                    tips.extend(refsat.iter().flatten().filter(|(k, _)| k == d).map(|(_, o)| *o));
-                    let ok = tips.iter().any(|o| {
-                        w.oid_ix(o).and_then(|i| w.blobs.get(&(*d, i))).and_then(|b| b.as_ref()).map(|b| b.valid()).unwrap_or(false)
-                    });
-                    if ok {
-                        could += 1;
+                    let stored: Option<git2::Oid> = lrefs.get(&(*d, SIGREFS.to_string())).cloned();
+                    let verdict: Result<(), &'static str> = (|| {
+                        let offered: Option<git2::Oid> = match &refsat {
+                            Some(v) => match v.iter().rev().find(|(k, _)| k == d) {
+                                Some((_, o)) => Some(*o),
+                                None => return if stored.is_some() { Ok(()) } else { Err("not-announced-not-stored") },
+                            },
+                            None => {
+                                let mut listed: Vec<git2::Oid> = arefs.get(&(*d, SIGREFS.to_string())).into_iter().cloned().collect();
+                                if !listed.is_empty() {
+                                    listed.extend(w.a_dups.iter().filter(|(k, _)| k == d).map(|(_, o)| *o));
+                                }
+                                if w.a_rev {
+                                    listed.reverse();
+                                }
+                                listed.last().cloned()
+                            }
+                        };
+                        let tip = offered.or(stored).ok_or("no-sigrefs")?;
+                        let blob = w
+                            .oid_ix(&tip)
+                            .and_then(|i| w.blobs.get(&(*d, i)))
+                            .and_then(|b| b.as_ref())
+                            .ok_or("unloadable")?;
+                        if !blob.valid() {
+                            return Err("does-not-verify");
+                        }
+                        if let Some(cur) = stored {
+                            if cur != tip {
+                                let a = w.oid_ix(&cur).zip(w.oid_ix(&tip)).and_then(|p| w.anc.get(&p)).cloned();
+                                match a {
+                                    Some('A') | Some('E') => {}
+                                    Some('B') => return Ok(()), // behind: the stored refs stay valid
+                                    Some('D') => return Err("diverged"),
+                                    _ => return Err("ancestry-unknown"),
+                                }
+                            }
+                        }
+                        if offered.is_none() {
+                            return Err("sigrefs-not-offered");
+                        }
+                        if blob.refs.contains_key(SIGREFS) {
+                            return Err("blob-lists-sigrefs");
+                        }
+                        if refsat.is_none() && arefs.contains_key(&(*d, RAD_ID.to_string())) && !blob.refs.contains_key(RAD_ID) {
+                            return Err("unsigned-rad-id");
+                        }
+                        Ok(())
+                    })();
+                    match verdict {
+                        Ok(()) => could += 1,
+                        Err(e) => {
+                            why.push(format!("{d}:{e}"));
+                            if stored.is_some() {
+                                tags.push(format!("stored-delegate-{e}"));
+                            }
+                        }
                     }
                 }
                 tags.push(if could < need { "below-threshold" } else if could == need { "at-threshold" } else { "above-threshold" }.to_string());
@@ -1420,13 +1476,13 @@ impl Lab {
                     if class == "success" {
                         viol.push((
                             "below-threshold-success".into(),
-                            format!("only {could} delegate(s) can have valid signed refs, {need} needed, but the fetch reported success"),
+                            format!("only {could} delegate(s) have valid signed refs ({why:?} do not), {need} needed, but the fetch reported success"),
                         ));
                     }
                     if changed_any {
                         viol.push((
                             "below-threshold-storage-changed".into(),
-                            format!("only {could} delegate(s) can have valid signed refs, {need} needed, but local storage changed"),
+                            format!("only {could} delegate(s) have valid signed refs ({why:?} do not), {need} needed, but local storage changed"),
                         ));
                     }
                 }
